@@ -15,6 +15,16 @@
 #include <pthread.h>
 #endif
 
+// Verification hooks. No-ops unless LIBGPC_VERIF is defined; then a harness that
+// defines the two functions can schedule threads cooperatively at these points.
+#ifdef LIBGPC_VERIF
+void gp_verif_sched_point(const char* tag, const void* object);
+bool gp_verif_mutex_lock(void* mutex); // sched point, then trylock until acquired
+#define GP_VERIF_SCHED_POINT(TAG, OBJECT) gp_verif_sched_point(TAG, OBJECT)
+#else
+#define GP_VERIF_SCHED_POINT(TAG, OBJECT) ((void)0)
+#endif
+
 #ifdef __GNUC__
 #define GP_UNLIKELY(COND) __builtin_expect(!!(COND), 0)
 #else
@@ -68,7 +78,11 @@ static inline bool gp_mutex_init(GPMutex* mutex)
 }
 static inline bool gp_mutex_lock(GPMutex* mutex)
 {
+    #ifdef LIBGPC_VERIF
+    return gp_verif_mutex_lock(mutex);
+    #else
     return mtx_lock(mutex) == thrd_success;
+    #endif
 }
 static inline bool gp_mutex_unlock(GPMutex* mutex)
 {
@@ -99,6 +113,7 @@ static inline int gp_thread_local_set(GPThreadKey key, void* value)
 }
 static inline void gp_thread_once(GPThreadOnce* flag, void(*init)(void))
 {
+    GP_VERIF_SCHED_POINT("once", flag);
     call_once(flag, init);
 }
 
@@ -127,7 +142,11 @@ static inline bool gp_mutex_init(GPMutex* mutex)
 }
 static inline bool gp_mutex_lock(GPMutex* mutex)
 {
+    #ifdef LIBGPC_VERIF
+    return gp_verif_mutex_lock(mutex);
+    #else
     return pthread_mutex_lock(mutex) == 0;
+    #endif
 }
 static inline bool gp_mutex_unlock(GPMutex* mutex)
 {
@@ -158,6 +177,7 @@ static inline int gp_thread_local_set(GPThreadKey key, void* value)
 }
 static inline void gp_thread_once(GPThreadOnce* flag, void(*init)(void))
 {
+    GP_VERIF_SCHED_POINT("once", flag);
     pthread_once(flag, init);
 }
 
